@@ -10,7 +10,7 @@ Import ListNotations.
    wildcards are bound to exactly the segments the pattern prescribes, in path order *)
 Theorem C10_find_sound : forall path n h ps ss,
   find_route path n [] [] = Some (h, ps, ss) ->
-  exists p, In (p, h) n /\ match_pat p path = Some (ps, ss).
+  exists p, In (p, h) n /\ matches p path ps ss.
 Proof.
   intros path n h ps ss H. destruct (find_route_sound path n [] [] h ps ss H) as [p [b [s [Hin [Hm [-> ->]]]]]].
   exists p. split; [exact Hin|exact Hm].
@@ -20,7 +20,7 @@ Print Assumptions C10_find_sound.
 (* if any registered route matches, the search (with its backtracking) finds a route: 404/405
    is answered only when no route of that method matches *)
 Theorem C10_find_complete : forall path n p h b s,
-  In (p, h) n -> match_pat p path = Some (b, s) -> find_route path n [] [] <> None.
+  In (p, h) n -> matches p path b s -> find_route path n [] [] <> None.
 Proof. intros. eapply find_route_complete; eassumption. Qed.
 Print Assumptions C10_find_complete.
 
@@ -29,7 +29,7 @@ Print Assumptions C10_find_complete.
 Theorem C10_status : forall t m resource,
   match route t m resource with
   | Match h ps ss => exists p, In (p, h) (tree_of t m)
-                       /\ match_pat p (segments (sanitize resource)) = Some (ps, ss)
+                       /\ matches p (segments (sanitize resource)) ps ss
   | NotAllowed ms => ms <> [] /\ find_route (segments (sanitize resource)) (tree_of t m) [] [] = None
                      /\ forall m', In m' ms -> m' <> m
   | NotFound => find_route (segments (sanitize resource)) (tree_of t m) [] [] = None
